@@ -67,7 +67,9 @@ func C13(c *run.Ctx) {
 		}
 	}
 	rtReqs := []string{"code", "token", "id_token", "id_token token", "token id_token", "code id_token", "id_token code", "code token", "code id_token token", "token code id_token",
-		"code code", "Code", "code  token", "", "unknown", "code unknown", "Token ID_TOKEN", "none"}
+		"code code", "Code", "code  token", "", "unknown", "code unknown", "Token ID_TOKEN", "none",
+		// one value repeated in two letter cases: as many fields as a registered two-value combination, but another set
+		"token TOKEN", "Token token", "code CODE", "ID_TOKEN id_token"}
 	modes := []string{"", "query", "fragment", "form_post", "weird"}
 	lens := []int{0, 7, 8, 9}
 	stride := uint64(1)
